@@ -497,6 +497,11 @@ func (p *Process) onProcessEnd(state string) {
 	}
 	p.setState(state)
 	p.updateProcState()
+	// the process has ended: release everything that may still be waiting for
+	// it to start, become ready or print its ready line - it never will
+	p.runCancelFn()
+	p.readyCancelFn()
+	p.readyLogCancelFn(fmt.Errorf("process %s has ended", p.getName()))
 
 	p.Lock()
 	p.done = true
